@@ -264,16 +264,35 @@ pub fn run(args: &Args) {
 		let mut specs = gen_sources(&mut rng, &mut next, 1, 3, 50);
 		if wi % 2 == 0 {
 			let mut extra = BTreeMap::new();
+			// byte-identical payloads (a small pool, incl. sizes around the versatiles writer's 1000-byte
+			// de-duplication threshold) so that index entries of real versatiles sources share ranges
+			next += 1;
+			let mut pool: Vec<u64> = vec![next];
+			while pool.len() < 4 {
+				next += 1;
+				if size_target(next).is_some() {
+					pool.push(next);
+				}
+			}
+			if wi % 4 == 0 {
+				specs[0].kind = "versatiles".to_string();
+			}
 			for z in 0..=4u8 {
 				for y in 0..(1u32 << z) {
 					for x in 0..(1u32 << z) {
 						if rng.chance(1, 3) {
-							next += 1;
-							extra.insert((z, x, y), next);
+							let idv = if rng.chance(2, 3) {
+								*rng.pick(&pool)
+							} else {
+								next += 1;
+								next
+							};
+							extra.insert((z, x, y), idv);
 						}
 					}
 				}
 			}
+			out.count(&format!("world_src0_{}", specs[0].kind));
 			if specs[0].kind == "mbtiles" {
 				extra.retain(|k, _| k.0 == 3);
 				specs[0].tiles.clear();
